@@ -496,6 +496,20 @@ _ADD11 = {
     "C19": " A level-variable kind builds the tree on a *slog.LevelVar that moves after construction and between derivations: all handlers of the tree must answer Enabled alike, under one of the two readings of 'configured level'.",
     "C20": " Requests may declare a trailer whose value is filled into the original request's Trailer map when the body reaches EOF.",
 }
+# Round 12.
+_ADD12 = {
+    "C10": " The bounded configuration also has an element-size limit and two keys longer than any limit (Get/Set/Del on them race with Stats, Clear and other Gets).",
+    "C11": " Thorough tier, 32-bit variant: 2^32+9 pushes into one ring buffer with the full observation after every push around the 2^32 boundary.",
+    "C12": " One net.Addr kind reports two endpoints in turn from AddrPort(); the result must be the unmapped form of one of them.",
+    "C14": " IPv6 zones include ones that begin with 25 (the URL-escaped percent sign).",
+    "C16": " The caller edits two earlier results obtained for one URL value; later calls must be unaffected.",
+    "C18": " An OS-signals kind sends real signals to the test process (a burst of non-shutdown signals, then SIGINT or SIGTERM) with a handler built on the default notifier.",
+    "C19": " The context passed to Handle may be cancelled, expired or value-carrying.",
+    "C20": " The base logger's handler may wipe or rewrite the attribute slice it is given in WithAttrs (slog lets it own the slice).",
+}
+for _pid, _lt in _ADD12.items():
+    PROPS[_pid]["level_text"] += _lt
+
 for _pid, _lt in _ADD11.items():
     PROPS[_pid]["level_text"] += _lt
 
